@@ -61,7 +61,7 @@ NameOfRecv(c) == CASE c.kind = "pmethQ" -> "q" [] c.kind = "pmeth0" -> "_" [] c.
 Kinds  == {"ctor1", "ctor2", "other", "pmeth", "pmethQ", "pmeth0", "vmeth", "cmeth", "ometh", "init", "pkgvar"}
 \* pmethQ: a pointer method of T whose receiver is called q (all others are called r); pmeth0: a pointer method with an unnamed receiver
 Stmts  == {"assignX", "assignM", "multiX", "compoundX", "compoundM", "incX", "decX", "incM", "indexXs", "indexMp",
-           "readX", "onU", "onTG", "local", "recvAssign", "recvInc", "recvDec", "starPlain", "starPlainInc",
+           "readX", "onU", "onTG", "onPkgVar", "local", "recvAssign", "recvInc", "recvDec", "starPlain", "starPlainInc",
            "onHidden",   \* d.Hidden().X = v : hidden is an unexported type of d (@immutable iff T is) handed out by an exported function
            "onT2"}   \* q.X = v with q *T2, a second @immutable type of d with `@constructor NewT2` (iff T is @immutable)
 Nests  == {"none", "if", "else", "for", "range", "switch", "select", "funclit", "defer", "go", "label",
@@ -90,6 +90,8 @@ Valid(c, pkg) ==
   /\ (c.stmt \in {"onT2", "onHidden", "local", "recvInc", "recvDec", "starPlain", "starPlainInc"} => c.ptr /\ c.sp = "direct" /\ c.via = "p")
   /\ (c.stmt = "onU" => c.ptr /\ c.sp \in {"direct", "fnalias"} /\ c.via = "p")
   \* onTG: a write to d.TG, the undocumented spec that follows T inside one `type ( ... )` group (T's doc is not TG's)
+  \* onPkgVar: a write to a package-level variable of d (d.Counter = n): a qualified identifier, not a field selection
+  /\ (c.stmt = "onPkgVar" => c.ptr /\ c.sp = "direct" /\ c.via = "p" /\ c.kind \notin {"pmethQ", "pmeth0"})
   /\ (c.stmt = "onTG" => c.ptr /\ c.sp = "direct" /\ c.via = "p" /\ c.kind \notin {"pmeth", "pmethQ", "pmeth0", "vmeth", "cmeth"})
   /\ (c.sp = "fnalias" => c.ptr /\ c.via = "p" /\ c.kind \in {"ctor1", "other", "init", "ometh"})
   \* `*r = v` on a plain *int that is merely *named* like the receivers of the methods (all receivers are called r)
@@ -149,7 +151,7 @@ InitProg ==
           /\ prog = [ann |-> ann, pkg |-> pkg, files |-> OneFile(Cont(k, s, v, p, "none", "direct"))]
   \/ /\ Mode = "spell"
      /\ \E ann \in {a \in Anns : ~a.noise}, pkg \in {"d", "u"}, k \in {"ctor1", "other", "init", "ometh"},
-          s \in Stmts \ {"onU", "onTG", "local", "recvAssign", "recvInc", "recvDec"}, p \in BOOLEAN, sp \in Spells :
+          s \in Stmts \ {"onU", "onTG", "onPkgVar", "local", "recvAssign", "recvInc", "recvDec"}, p \in BOOLEAN, sp \in Spells :
           /\ Valid(Cont(k, s, "p", p, "none", sp), pkg)
           /\ prog = [ann |-> ann, pkg |-> pkg, files |-> OneFile(Cont(k, s, "p", p, "none", sp))]
   \/ /\ Mode = "spell"     \* ... and every spelling of a method's receiver type
